@@ -42,6 +42,7 @@ var (
 	FailRead      func(h *Handle, off int64) error
 	ShortRead     func(n int) int
 	FailCreate    func(dir string) error
+	FailSeek      func(h *Handle, off int64, whence int) error
 )
 
 //go:norace
@@ -134,6 +135,11 @@ func (f *File) ReadAt(p []byte, off int64) (int, error) {
 
 func (f *File) Seek(off int64, whence int) (int64, error) {
 	f.note(true)
+	if FailSeek != nil {
+		if err := FailSeek(f.h, off, whence); err != nil {
+			return 0, err
+		}
+	}
 	return f.f.Seek(off, whence)
 }
 
